@@ -1,14 +1,16 @@
 #!/bin/sh
-# usage: mutest.sh <patch.diff> <property> [tier]   -- apply a seeded change to /repo, run the check, undo it
+# usage: mutest.sh <patch.diff> <property> [tier]
+# Apply a seeded change to a scratch worktree of /repo (never to /repo itself), run the property's
+# check against that worktree, undo the change. Evidence files in /verif are left untouched.
 set -u
-P="$1"; PROP="$2"; TIER="${3:-quick}"
-cd /repo || exit 2
-if ! git diff --quiet; then echo "repo working tree not clean" >&2; exit 2; fi
-git apply "$P" || { echo "patch does not apply" >&2; exit 2; }
-# evidence files in /verif describe the unchanged tree: keep them out of seeded runs
+P="$1"; PROP="$2"; TIER="${3:-quick}"; W=/tmp/verif-mutest-repo
+HEAD=$(git -C /repo rev-parse HEAD)
+if [ ! -d "$W" ]; then git -C /repo worktree add -q --detach "$W" "$HEAD" || exit 2; fi
+git -C "$W" checkout -q -- . && git -C "$W" checkout -q --detach "$HEAD" || exit 2
+git -C "$W" apply "$P" || { echo "patch does not apply" >&2; exit 2; }
 mkdir -p /verif/target/evidence-backup; cp -f /verif/evidence/"$PROP".json /verif/target/evidence-backup/ 2>/dev/null
-cd /verif && ./check "$PROP" "$TIER"; RC=$?
-git -C /repo checkout -- . 
+cd /verif && VERIF_REPO="$W" ./check "$PROP" "$TIER"; RC=$?
+git -C "$W" checkout -q -- .
 cp -f /verif/target/evidence-backup/"$PROP".json /verif/evidence/ 2>/dev/null; rm -f /verif/replays/*.json
 echo "exit=$RC"
 exit $RC
